@@ -1007,6 +1007,15 @@ theorem progress_hyps_reachable_wfRes (hnf : NoFail eval) (hres : WfRes cfg)
     Core s ∧ Live cfg s ∧ pg_Aux cfg s ∧ s.nsub + (s.script.filter isSubmit).length ≤ cfg.calls.length :=
   progress_hyps_reachable cfg eval cancelErr hnf hres.2 hsc h
 
+/-- with the limit-level hypothesis `WfLim` (weaker than `WfRes` on the program: nothing is asked
+    of the calls) -/
+theorem progress_hyps_reachable_wfLim (hnf : NoFail eval) (hl : WfLim cfg)
+    {script : List Cmd} {s : State Val Err}
+    (hsc : (script.filter isSubmit).length ≤ cfg.calls.length)
+    (h : Reachable cfg eval cancelErr script s) :
+    Core s ∧ Live cfg s ∧ pg_Aux cfg s ∧ s.nsub + (s.script.filter isSubmit).length ≤ cfg.calls.length :=
+  progress_hyps_reachable cfg eval cancelErr hnf hl.1 hsc h
+
 /-! ### the failure labels are not enabled in runs without failing calls -/
 
 theorem ax_sd_raise_none {s : State Val Err} (hD : noDead s = true) (sd : Sd) (b : Bool) :
